@@ -75,6 +75,7 @@ ApplyX(s, c) ==
       [] c.op \in {"uniquify", "flatten"} ->
              IF ~(c.n \in IdsN(s)) \/ s.nlTop[c.n] = None \/ s.instRef[s.nlTop[c.n]] = None THEN Refuse(s)
              ELSE Ok(IF c.op = "uniquify" THEN Uniquify(s, c.n) ELSE Flatten(s, c.n))
+      [] c.op = "q" -> [s |-> s, out |-> "ok", ret |-> <<>>]
       [] c.op = "clone" ->
              IF ~Exists(s, c.kind, c.x) THEN Refuse(s)
              ELSE LET r == CloneOf(s, c.kind, c.x) IN OkRet(r.s, <<r.root>>)
